@@ -270,7 +270,9 @@ theorem safe_asElem_step (W : World) (_g : GoodParams W.P) (f : Nat) (ih : SafeA
   split
   · exact ih.for_ _ _ _ _ _ _
   · split
-    · exact ih.list _ _ _
+    · split
+      · exact ih.tmpl _ _ _ _
+      · exact ih.list _ _ _
     · exact ih.plain _ _ _ _ _
 
 theorem safe_vfor_step (W : World) (_g : GoodParams W.P) (f : Nat) (ih : SafeAt W f) :
